@@ -224,6 +224,70 @@ def tup(x):
     return tuple(tup(i) for i in x) if isinstance(x, (list, tuple)) else x
 
 
+# ---- same-named rules in two grammar files: a type given as a class means that class ------------------------------
+SN_FILES = {"main": "import base\nModel: blocks+=Block;\nBlock: 'block' name=ID '{' sections*=Section '}';\n",
+            "base": "Section: 'section' name=ID '{' blocks*=Block '}';\nBlock: 'b' name=ID ('{' stmts*=Stmt '}')?;\nStmt: 'stmt' name=ID;\n"}
+
+
+def sn_models():
+    import itertools
+
+    inner = ["", "b x", "b x { stmt t }", "b x { stmt t } b y { stmt u stmt v }"]
+    for secs in itertools.chain([()], itertools.product(inner, repeat=1), itertools.product(inner, repeat=2)):
+        body = " ".join("section s%d { %s }" % (i, x) for i, x in enumerate(secs))
+        yield "block a { %s }" % body
+        yield "block a { %s } block c { section q { b z } }" % body
+
+
+def run_samename(text):
+    import os
+
+    from mc import core
+    from textx import get_children, get_children_of_type, get_parent_of_type, metamodel_from_file
+
+    if "sn" not in _S:
+        d = os.path.join(core.rundir(), "c05sn-%d" % os.getpid())
+        os.makedirs(d, exist_ok=True)
+        for fn, t in SN_FILES.items():
+            with open(os.path.join(d, fn + ".tx"), "w") as f:
+                f.write(t)
+        _S["sn"] = metamodel_from_file(os.path.join(d, "main.tx"))
+    mm_ = _S["sn"]
+    m = mm_.model_from_str(text)
+    objs = get_children(lambda x: True, m)
+    bad = []
+    classes = {q: mm_[q] for q in ("main.Block", "base.Block", "base.Section", "base.Stmt", "main.Model")}
+    assert classes["main.Block"] is not classes["base.Block"]
+    for q, cls in classes.items():
+        for start in objs:
+            want = [o for o in get_children(lambda x: True, start) if type(o) is cls]
+            got = get_children_of_type(cls, start)
+            if [id(o) for o in got] != [id(o) for o in want]:
+                bad.append(("get_children_of_type(%s)" % q, getattr(start, "name", "model"), [getattr(o, "name", None) for o in want], [getattr(o, "name", None) for o in got]))
+            anc, p = None, start
+            while getattr(p, "parent", None) is not None:
+                p = p.parent
+                if type(p) is cls:
+                    anc = p
+                    break
+            got = get_parent_of_type(cls, start)
+            if got is not anc:
+                bad.append(("get_parent_of_type(%s)" % q, getattr(start, "name", "model"), getattr(anc, "name", None), getattr(got, "name", None)))
+    return not bad, {"grammar_files": SN_FILES, "text": text, "objects": len(objs), "failures": bad[:3]}
+
+
+def work_samename(arg):
+    u = Unit()
+    for text in arg:
+        with watchdog(20):
+            ok, obs = run_samename(text)
+        u.case(["same-name", text], nontrivial=True, sample=obs if ok and obs["objects"] > 6 else None)
+        u.count("same-named rules in two grammar files")
+        if not ok:
+            u.fail(["same-name", text], {"samename": text}, sig="same-name " + str(obs["failures"][0][0]), what=str(obs["failures"][:2])[:500] + " :: " + text)
+    return u
+
+
 def run(ctx):
     plan = [(1, True), (2, True), (3, True), (4, False)] if ctx.tier == "quick" else [(1, True), (2, True), (3, True), (4, True), (5, False), (6, False)]
     units = []
@@ -233,7 +297,10 @@ def run(ctx):
         nf += len(fs)
         units += [(fs[i:i + 4], wr) for i in range(0, len(fs), 4)]
     ctx.pmap(work, units)
+    sn = list(dict.fromkeys(sn_models()))
+    ctx.pmap(work_samename, [sn[i:i + 6] for i in range(0, len(sn), 6)])
     return {
+        "same_name_family": "%d models over main.tx/base.tx that both define a rule Block: get_children_of_type / get_parent_of_type by class for every class x every start object" % len(sn),
         "rule": "case = (forest, optional reference src->dst, classes: generated / user class Leaf / user classes Leaf and a collection-like Node that is falsy when it has no items / a Leaf with a read-only property and a Node with class-level defaults); per case: parent and get_model for every object, get_children for "
                 "4 selectors x 3 should_follow x 2 orders from every start object, get_children_of_type / get_parent_of_type for every start x type "
                 "(by name and by class). plan (objects, all references?) = %s; non-trivial = more than one object" % (plan,),
@@ -242,4 +309,6 @@ def run(ctx):
 
 
 def replay(p):
+    if "samename" in p:
+        return run_samename(p["samename"])
     return run_case(tup(p["forest"]), tup(p["ref"]) if p["ref"] else None, p["user"])
